@@ -1,5 +1,6 @@
 """C01 - a successful bump yields a valid, strictly greater version."""
 from campaigns.testcmd import TestCmd
+from campaigns.life import Life
 
 PROPERTY = "C01"
 LEVEL = "exploration"
@@ -10,7 +11,8 @@ RULE = ("TESTCMD chains of `bumpver test` (see C05) with 35% of steps using --se
 ASSUMPTIONS = ["reference recogniser (ref.pattern) and vendored packaging.version decide 'matches in full' and 'greater'"]
 COMPONENTS = {"bumpver cli test/update": "real", "clock": "simulated", "files": "real scratch directory",
               "VCS": "FakeRepo or none"}
-CAMPAIGNS = [TestCmd("C01", quick=24000, thorough=900000, sv_rate=0.35)]
+CAMPAIGNS = [TestCmd("C01", quick=20000, thorough=800000, sv_rate=0.35),
+             Life("C01", quick=6000, thorough=300000, sv_rate=0.35, dry_rate=0.3)]
 
 
 def sanity_gate(tier, total):
